@@ -56,7 +56,16 @@ partial def tyOf : Sexp → Option Ty
       let k ← tyOf k; let v ← tyOf v; let l ← lo.int?; let h ← hi.int?
       if intOk l && intOk h && l ≤ h then some (.hash k v l h) else none
   | .list [.atom "like", t, n] => do let t ← tyOf t; let n ← n.bytes?; pure (.like t n)
-  | .atom "callable" => some (.callable false [])
+  | .atom "callable" => some (.callable false [] false .any false .any)
+  -- (callablex n|(T*) n|R n|B): parameter Tuple, return type, block type, each absent (n) or given
+  | .list [.atom "callablex", ps, r, b] => do
+      let (h, ts) ← (match ps with
+        | .atom "n" => some (false, [])
+        | .list ts => (ts.mapM tyOf).map fun ts => (true, ts)
+        | _ => none)
+      let (hr, rt) ← (match r with | .atom "n" => some (false, Ty.any) | e => (tyOf e).map fun t => (true, t))
+      let (hb, bt) ← (match b with | .atom "n" => some (false, Ty.any) | e => (tyOf e).map fun t => (true, t))
+      some (.callable h ts hr rt hb bt)
   -- (struct (xNAME s|r|o T)*): a member given by a plain string key (s), a String['name'] / NotUndef['name'] key (r), an
   -- Optional['name'] key (o); names are not empty
   | .list (.atom "struct" :: es) => do
@@ -69,7 +78,7 @@ partial def tyOf : Sexp → Option Ty
       some (.struct es)
   | .list [.atom "runtime", rt, n, .atom "n"] => do let rt ← rt.bytes?; let n ← n.bytes?; pure (.runtime rt n none)
   | .list [.atom "runtime", rt, n, p] => do let rt ← rt.bytes?; let n ← n.bytes?; let p ← p.bytes?; pure (.runtime rt n (some p))
-  | .list (.atom "callable" :: ts) => (ts.mapM tyOf).map fun ts => .callable true ts
+  | .list (.atom "callable" :: ts) => (ts.mapM tyOf).map fun ts => .callable true ts false .any false .any
   | .list (.atom "semver" :: orig :: rs) => do
       let o ← orig.bytes?; let rs ← rs.mapM arangeOf
       if rs.isEmpty then none else some (.semverT o rs)
@@ -179,8 +188,10 @@ partial def tyStr : Ty → String
   | .runtime rt n none => "(runtime " ++ hexB rt ++ " " ++ hexB n ++ " n)"
   | .runtime rt n (some p) => "(runtime " ++ hexB rt ++ " " ++ hexB n ++ " " ++ hexB p ++ ")"
   | .struct es => "(struct" ++ String.join (es.map fun (n, o, v) => " (" ++ hexB n ++ " " ++ (if o then "o" else "r") ++ " " ++ tyStr v ++ ")") ++ ")"
-  | .callable false _ => "callable"
-  | .callable true ts => "(callable" ++ String.join (ts.map fun t => " " ++ tyStr t) ++ ")"
+  | .callable false _ false _ false _ => "callable"
+  | .callable true ts false _ false _ => "(callable" ++ String.join (ts.map fun t => " " ++ tyStr t) ++ ")"
+  | .callable h ts hr r hb b => "(callablex " ++ (if h then "(" ++ " ".intercalate (ts.map tyStr) ++ ")" else "n") ++ " " ++
+      (if hr then tyStr r else "n") ++ " " ++ (if hb then tyStr b else "n") ++ ")"
   | .semverT o rs => if rangesEq rs matchAllR then "semver" else "(semver " ++ hexB (rangeStr o rs) ++ " " ++ hexB (normStr rs) ++ ")"
 
 partial def valStr : Val → String
